@@ -18,7 +18,12 @@ def specs(tier):
 
 
 def run(tier, seed, t0):
-    res = kani.run_harnesses("C04", specs(tier), per_timeout=600 if tier == "quick" else 1800)
+    # what enters the digest (engine M): ZA binds the signer ID byte for byte (also non-ASCII IDs) and the public key; e = SM3(ZA || M)
+    import c03
+    from obl import run_parallel
+    res = run_parallel([(lambda n=n: c03.ob_za(n)) for n in (0, 1, 16, 17)] + [(lambda t=t: c03.ob_za(0, text=t)) for t in ("\u00e9", "\u7528\u6237\u4e2d", "A\u01e9z\U0001f511")]
+                       + [(lambda n=n: c03.ob_sign_framing(n)) for n in (0, 1, 16)] + [c03.ob_verify_complete], nproc=14)
+    res += kani.run_harnesses("C04", specs(tier), per_timeout=600 if tier == "quick" else 1800)
     return finish("C04", tier, seed, "model_checking", res, t0,
                   assumptions=["EC layer (g_mul, scalar_mul, point_add, to_affine_point, fp_from_mont) and SM3 are arbitrary functions: "
                                "the verdict holds for every behaviour of those layers, their correctness is C11/C01",
